@@ -316,7 +316,7 @@ def finish(pid, tier, seed, mod, rec, t0, replay_mode=False):
         assumptions=list(getattr(mod, "ASSUME", [])), wall_s=round(time.time() - t0, 2),
         violations=len(unknown),
     )
-    if not replay_mode:
+    if not replay_mode and not os.environ.get("VERIF_EVIDENCE_SKIP"):  # (the skip is used only by tools/try_seed.sh on a deliberately broken tree)
         os.makedirs(os.path.join(ROOT, "evidence"), exist_ok=True)
         with open(os.path.join(ROOT, "evidence", f"{pid}.json"), "w") as f:
             json.dump(ev, f, indent=1, sort_keys=True)
